@@ -158,15 +158,15 @@ func (e *Encoder) WriteData(data interface{}) (int, error) {
 }
 
 func (e *Encoder) writeString(value string) (int, error) {
-	return e.writer.Write(encodeString(value))
+	return e.writeBytes(encodeString(value))
 }
 
 func (e *Encoder) writeInt(value int32) (int, error) {
-	return e.writer.Write(encodeInt(value))
+	return e.writeBytes(encodeInt(value))
 }
 
 func (e *Encoder) writeLong(value int64) (int, error) {
-	return e.writer.Write(encodeLong(value))
+	return e.writeBytes(encodeLong(value))
 }
 
 func (e *Encoder) writeDouble(value float64) (int, error) {
@@ -174,21 +174,27 @@ func (e *Encoder) writeDouble(value float64) (int, error) {
 	if err != nil {
 		return 0, err
 	}
-	return e.writer.Write(bytes)
+	return e.writeBytes(bytes)
 }
 
 func (e *Encoder) writeBoolean(value bool) (int, error) {
-	return e.writer.Write(encodeBoolean(value))
+	return e.writeBytes(encodeBoolean(value))
 }
 
 func (e *Encoder) writeBinary(value []byte) (int, error) {
-	return e.writer.Write(encodeBinary(value))
+	return e.writeBytes(encodeBinary(value))
 }
 
 func (e *Encoder) writeBT(bs ...byte) (int, error) {
-	return e.writer.Write(bs)
+	return e.writeBytes(bs)
 }
 
+// writeBytes hands bytes to the destination writer; a short count without an
+// error (which io.Writer forbids but a faulty writer may produce) is an error too.
 func (e *Encoder) writeBytes(bytes []byte) (int, error) {
-	return e.writer.Write(bytes)
+	n, err := e.writer.Write(bytes)
+	if err == nil && n < len(bytes) {
+		err = io.ErrShortWrite
+	}
+	return n, err
 }
